@@ -163,14 +163,15 @@ fn gen_ident(rng: &mut Rng) -> Inst {
             for _ in 0..rng.range(1, 3) {
                 s.push((b'0' + rng.below(10) as u8) as char);
             }
-            // first alpha must not be x/b (0x.. / 0b.. prefixes are a number corner of LLVM's lexer)
-            let c = loop {
-                let c = IDC[rng.below(53)];
-                if c != b'x' && c != b'b' {
-                    break c;
-                }
-            };
+            // after the digits: a letter; `x` / `b` only when what follows is not a digit of that radix
+            // (`0bar`, `0b2`, `12xyz` are identifiers; `0b1..`, `0x1..`, `12b0` are LLVM's number corner)
+            let c = IDC[rng.below(53)];
             s.push(c as char);
+            if c == b'x' {
+                s.push(*rng.pick(&['g', 'z', '_', 'G', 'q']));
+            } else if c == b'b' {
+                s.push(*rng.pick(&['2', '9', 'a', 'e', 'F', '_', 'z']));
+            }
         } else {
             s.push(IDC[rng.below(53)] as char);
         }
@@ -317,6 +318,11 @@ pub fn representatives() -> Vec<Inst> {
         ("Foo", Class::Ident, "ident"),
         ("4foo", Class::Ident, "ident:digit-leading"),
         ("12_", Class::Ident, "ident:digit-leading"),
+        ("0bar", Class::Ident, "ident:digit-leading"),
+        ("0b2", Class::Ident, "ident:digit-leading"),
+        ("0beef", Class::Ident, "ident:digit-leading"),
+        ("0xg", Class::Ident, "ident:digit-leading"),
+        ("7x_", Class::Ident, "ident:digit-leading"),
         ("classy", Class::Ident, "ident:keyword-prefix"),
         ("int1", Class::Ident, "ident:keyword-prefix"),
         ("0", Class::Int, "int:decimal"),
